@@ -32,7 +32,7 @@ ASSUMPTIONS = [
 PARTIAL = []
 REFUTED = ['C04_partial_unfixed_raises (the partial encoder BEFORE fixes/C04-partial-token-error.diff lets '
            'LatexWalkerTokenParseError escape; carried as documentation of F9, the model tracks the fixed code)']
-CASE_TIMEOUT = 2.0
+CASE_TIMEOUT = 10.0      # generous: a spurious timeout under load reads as a disagreement
 ALWAYS_SEARCH = False
 
 PROTS = ['none', 'braces', 'braces-all', 'braces-almost-all', 'braces-after-macro']
